@@ -17,7 +17,7 @@ MIRI = {"quick": ["--items", "2", "--rounds", "3", "--maxstates", "120", "--rand
 
 def run(tier, seed):
     # the breadth-first frontier of the 4-item space is capped so that the probe stays well inside its address-space limit
-    extra = ["--maxstates", "2000000"] if tier == "thorough" else []
+    extra = ["--maxstates", "800000"] if tier == "thorough" else []
     return run_probe_check("C26", tier, seed, RULE, ASSUME, extra=extra, min_evals=100000, miri=MIRI)
 
 
